@@ -40,7 +40,7 @@ def run(ctx, driver):
                 "(expanded, factored -(x-E)/tau, nested parentheses, float literals, shuffled, reordered entries); expected analytic set computed independently "
                 "(differential criterion + greatest dependency-closed subset, minus the two documented exceptions); distinct = distinct input texts; "
                 "non-trivial = at least one variable expected analytic and >= 2 terms in some right-hand side")
-    cases = gen_cases(ctx, 34 if quick else 600, 6 if quick else 10)
+    cases = gen_cases(ctx, ctx.n(34, 600), ctx.n(6, 10))
     results = _shared.run_full(ctx, cases, timeout=40)
     by_truth = {}
     for case, res in zip(cases, results):
